@@ -68,6 +68,7 @@
 EXPORT int vprintf_s(const char *restrict fmt, va_list ap) {
     int ret;
     const char *p;
+    char buffer[1];
 
     if (unlikely(fmt == NULL)) {
         invoke_safe_str_constraint_handler("vprintf_s: fmt is null", NULL,
@@ -85,9 +86,10 @@ EXPORT int vprintf_s(const char *restrict fmt, va_list ap) {
     }
 
     errno = 0;
-    ret = vprintf(fmt, ap);
+    ret = safec_vsnprintf_s(safec_out_char, "vprintf_s", buffer, (rsize_t)-1,
+                            fmt, ap);
 
-    if (unlikely(ret < 0)) {
+    if (unlikely(ret < 0 && errno != 0)) {
         char errstr[128] = "vprintf_s: ";
         strcat(errstr, strerror(errno));
         invoke_safe_str_constraint_handler(errstr, NULL, -ret);
